@@ -35,10 +35,10 @@ ASSUMPTIONS = [
     "complex or non-symmetric terms are confined to damping (and a circulatory stiffness "
     "part for the FreqDirect fallback); Hermitian-complex K/M with pre_eig is a C02 finding",
 ]
-MIN_NONTRIVIAL = {"quick": 150, "thorough": 5000}
+MIN_NONTRIVIAL = {"quick": 200, "thorough": 5000}
 TIMEOUT = {"quick": 1500, "thorough": 10800}
 NSLICE = {"quick": 8, "thorough": 16}
-NPAIR = {"quick": 240, "thorough": 8000}
+NPAIR = {"quick": 320, "thorough": 8000}
 AMP_LIMIT = 1e6
 DELTA = 1e-13
 
@@ -180,7 +180,7 @@ def gen_pair(seed, i):
     nmax = {1: 6, 3: 4, 6: 3}[dim]
     Ns = int(r.integers(max(2, nif_nodes), max(2, nif_nodes) + 3))
     Ns = max(nif_nodes + (1 if r.random() < 0.85 else 0), min(Ns, max(nmax, nif_nodes)))
-    noq = (i % 11 == 5)                         # Load without interior DOF
+    noq = (i % 7 == 5)                          # Load without interior DOF
     if noq and all(sum(1 for q, _ in iface if q == nd) == nper for nd in range(nif_nodes)):
         Nl = nif_nodes
     else:
@@ -188,6 +188,8 @@ def gen_pair(seed, i):
         Nl = int(r.integers(nif_nodes + 1, max(nif_nodes + 1, nmax) + 1))
     fsrc = FORMS_SRC[(i // 2) % len(FORMS_SRC)]
     fload = FORMS_LOAD[(i // 5) % len(FORMS_LOAD)]
+    if noq and (i // 7) % 4 != 3:
+        fload = "cb-pv"          # every DOF a boundary DOF: cbtf's branch without a q-set
     Ms, Bs, Ks, ps, als = gen_struct(r, dim, max(Ns, 2), ipos, damp,
                                      nonsym_k=fsrc == "nonsym-k")
     if noq:
@@ -297,7 +299,7 @@ def make_form(np, nt, r, form, M, B, K, b, cb_ok, alpha=None, determinate=False)
         where = nq + np.arange(rr)                 # b-set last
     else:
         where = np.sort(r.choice(n, rr, replace=False))   # interleaved
-    if r.random() < 0.6:
+    if r.random() < (0.9 if nq == 0 else 0.6):
         where = r.permutation(where)               # unsorted partition vector
     order = np.empty(n, int)                       # new position p holds old dof order[p]
     rest = np.setdiff1d(np.arange(n), where)
